@@ -111,6 +111,16 @@ def conv_guard_factory(repo, log=None):
                     base = b.value
                 else:
                     return False
+        if isinstance(arg, ast.Name):
+            # digits = m.group(1) ... int(digits, 2): a local that holds
+            # one group of the match stands for it
+            v = local_assign(func, arg.id)
+            if isinstance(v, ast.Call) and \
+                    isinstance(v.func, ast.Attribute) and \
+                    v.func.attr == 'group' and \
+                    isinstance(v.func.value, ast.Name) and \
+                    arg.id not in func.params:
+                arg = v
         argt = norm(arg)
         for t, pol in facts:
             if (not pol) and isinstance(t, ast.UnaryOp) and \
